@@ -476,16 +476,20 @@ where
         feature_class: u64,
         only_baked: bool,
     ) -> (TrackDistanceOk<OA>, TrackDistanceErr<OA>) {
-        let tracks_vec = self.fetch_tracks(tracks);
+        // The candidates stay in the store while the workers run the queued commands, so that
+        // each of them is also compared with the other candidates, whatever the schedule.
+        let mut tracks_vec = Vec::with_capacity(tracks.len());
+        for track_id in tracks {
+            let shard = self.get_store(*track_id as usize);
+            if let Some(t) = shard.get(track_id) {
+                tracks_vec.push(t.clone());
+            }
+        }
 
-        let res = self.foreign_track_distances(tracks_vec.clone(), feature_class, only_baked);
+        let res = self.foreign_track_distances(tracks_vec, feature_class, only_baked);
 
         #[cfg(feature = "similari_verif")]
         crate::verif::point("store.owned.window", tracks.len() as u64);
-
-        for t in tracks_vec {
-            self.add_track(t).unwrap();
-        }
 
         res
     }
